@@ -97,6 +97,37 @@ func (b *Buffer) Clone() *Buffer {
 	}
 }
 
+// cloneChunk clones the buffer, keeping only the sections that belong to the chunk.
+func (b *Buffer) cloneChunk(chunk Chunk) *Buffer {
+	clone := &Buffer{
+		Column: b.Column,
+		buffer: make([]byte, 0, len(b.buffer)),
+		chunks: make([]header, 0, len(b.chunks)),
+		last:   b.last,
+		chunk:  b.chunk,
+	}
+
+	for i, h := range b.chunks {
+		if h.Chunk != chunk {
+			continue
+		}
+
+		end := uint32(len(b.buffer))
+		if len(b.chunks) > i+1 {
+			end = b.chunks[i+1].Start
+		}
+
+		clone.chunks = append(clone.chunks, header{Chunk: h.Chunk, Start: uint32(len(clone.buffer)), Value: h.Value})
+		clone.buffer = append(clone.buffer, b.buffer[h.Start:end]...)
+	}
+
+	// If the open section was not carried over, the next write must start a new one
+	if n := len(b.chunks); n > 0 && b.chunks[n-1].Chunk != chunk {
+		clone.chunk = math.MaxUint32
+	}
+	return clone
+}
+
 // Reset resets the queue so it can be reused.
 func (b *Buffer) Reset(column string) {
 	b.last = 0
